@@ -23,7 +23,17 @@ func VerifC01Step() {
 		w[i] = verifInt(verifName("w", i))
 		verifAssume(verifAnd(w[i] >= 0, w[i] < 1<<31))
 		max = verifIteInt(w[i] > max, w[i], max)
-		r.servers = append(r.servers, &server{url: &url.URL{Host: verifName("s", i)}, weight: w[i]})
+		// the pool is built through the API (add, then re-weight: a new server with Weight(0)
+		// would get the default weight), so that whatever the balancer derives from the pool
+		// when it changes is in place; only the iterator position below is set directly
+		u := &url.URL{Scheme: "http", Host: verifName("s", i)}
+		e1 := r.UpsertServer(u, Weight(1))
+		e2 := r.UpsertServer(u, Weight(w[i]))
+		verifAssert("upsert-ok", verifAnd(e1 == nil, e2 == nil))
+	}
+	verifAssert("pool-built", len(r.servers) == n)
+	for i := 0; i < n && i < len(r.servers); i++ {
+		verifAssert("pool-weights", r.servers[i].weight == w[i])
 	}
 	verifAssume(max > 0)
 	idx := verifInt("index")
